@@ -257,6 +257,48 @@ func c08Check(c c08Case) *Violation {
 			}
 		}
 		return nil
+	case "locator-den":
+		// a bare key selector over features with locations of every kind (mixed strands, nested compounds): the regions
+		// are those of the matching features in table order, and each extracts what its location denotes
+		var locate gts.Locator
+		var err error
+		if pi := guard(func() { locate, err = gts.AsLocator("gene") }); pi != nil {
+			return panicViolation("AsLocator(gene)", pi)
+		}
+		if err != nil {
+			return viol("locator-parse", "AsLocator(gene) failed: %v", err)
+		}
+		for _, seqBytes := range c08Seqs(c.L) {
+			seq := gts.New(nil, featsToGts(c.Table), append([]byte(nil), seqBytes...))
+			var got [][]byte
+			if pi := guard(func() {
+				for _, r := range locate(seq) {
+					got = append(got, append([]byte(nil), r.Locate(seq).Bytes()...))
+				}
+			}); pi != nil {
+				return panicViolation("locator gene / Locate", pi)
+			}
+			var want [][]byte
+			for _, f := range seq.Features() {
+				if f.Key != "gene" {
+					continue
+				}
+				ast, ok := fromGts(f.Loc)
+				if !ok {
+					return viol("malformed", "malformed location %v", f.Loc)
+				}
+				want = append(want, modelExtract(den(ast), seqBytes))
+			}
+			if len(got) != len(want) {
+				return viol("locator-count", "locator gene returns %d regions for %d gene features (%s)", len(got), len(want), tableString(seq.Features()))
+			}
+			for i := range want {
+				if !bytes.Equal(got[i], want[i]) {
+					return viol("locator-den", "locator gene, region %d of table %s on %q: extracts %q, the location denotes %q", i, tableString(seq.Features()), seqBytes, got[i], want[i])
+				}
+			}
+		}
+		return nil
 	case "locator":
 		text := c.Spec
 		if c.UseAt {
@@ -522,6 +564,18 @@ func c08Gen(t *rapid.T) c08Case {
 		}
 		return c08Case{Mode: "modtext", Mod: m}
 	case 1, 2:
+		if rapid.IntRange(0, 3).Draw(t, "den") == 0 {
+			// bare selector over locations of every kind
+			L := rapid.IntRange(4, 20).Draw(t, "L")
+			cfg := locCfg{L: L, Hot: []int{0, L}, MaxDepth: 3, MaxParts: 4, Sites: true, MaxSpan: 4}
+			n := rapid.IntRange(1, 4).Draw(t, "nfeat")
+			var table []Feat
+			for i := 0; i < n; i++ {
+				canon, _ := fromGts(toGts(genLoc(t, cfg)))
+				table = append(table, Feat{Key: rapid.SampledFrom([]string{"gene", "gene", "CDS"}).Draw(t, "key"), Loc: canon, Quals: [][]string{{"label", fmt.Sprintf("f%d", i)}}})
+			}
+			return c08Case{Mode: "locator-den", L: L, Table: table}
+		}
 		// locator
 		L := rapid.IntRange(8, 30).Draw(t, "L")
 		cfg := locCfg{L: L, Hot: []int{0, L}, MaxDepth: 2, MaxParts: 3, Sites: false, MaxSpan: 4}
